@@ -59,6 +59,11 @@ type router struct {
 	closed        bool
 	closeOnce     sync.Once
 
+	// stopLock is held shared while posting to actionChan, and exclusively by
+	// Close() while it closes actionChan, after which stopping is true.
+	stopLock sync.RWMutex
+	stopping bool
+
 	log   stdlog.StdLog
 	debug bool
 
@@ -178,7 +183,7 @@ func (r *router) AttachClient(client wamp.Peer, transportDetails wamp.Dict) erro
 	// Lookup or create realm to attach to.
 	var realm *realm
 	sync := make(chan error)
-	r.actionChan <- func() {
+	posted := r.post(func() {
 		if r.closed {
 			sendAbort(wamp.ErrSystemShutdown, nil)
 			sync <- errors.New("router is closing, not accepting new clients")
@@ -211,6 +216,10 @@ func (r *router) AttachClient(client wamp.Peer, transportDetails wamp.Dict) erro
 			r.log.Println("Auto-added realm:", hello.Realm)
 		}
 		sync <- nil
+	})
+	if !posted {
+		sendAbort(wamp.ErrSystemShutdown, nil)
+		return errors.New("router is closed, not accepting new clients")
 	}
 	err = <-sync
 	if err != nil {
@@ -303,7 +312,11 @@ func (r *router) Close() {
 			close(done)
 		}
 		<-done
+		// Wait for anyone still posting an action, and refuse later ones.
+		r.stopLock.Lock()
+		r.stopping = true
 		close(r.actionChan)
+		r.stopLock.Unlock()
 		if r.stopMemStats != nil {
 			close(r.stopMemStats)
 			<-r.memStatsStopped
@@ -317,9 +330,11 @@ func (r *router) Close() {
 func (r *router) AddRealm(config *RealmConfig) error {
 	var err error
 	sync := make(chan struct{})
-	r.actionChan <- func() {
+	if !r.post(func() {
 		_, err = r.addRealm(config)
 		close(sync)
+	}) {
+		return errors.New("router is closed")
 	}
 	<-sync
 	return err
@@ -343,7 +358,7 @@ func (r *router) RemoveRealm(name wamp.URI) {
 	var realm *realm
 	var ok bool
 	sync := make(chan struct{})
-	r.actionChan <- func() {
+	if !r.post(func() {
 		if realm, ok = r.realms[name]; ok {
 			// if found, go ahead and remove the realm from the router to
 			// prevent new clients from joining it.
@@ -351,6 +366,9 @@ func (r *router) RemoveRealm(name wamp.URI) {
 			r.log.Printf("Removed realm: %s", name)
 		}
 		close(sync)
+	}) {
+		// Router is closed; it has already closed and removed all realms.
+		return
 	}
 	// wait until the atomic func has completed.
 	<-sync
@@ -360,6 +378,18 @@ func (r *router) RemoveRealm(name wamp.URI) {
 		realm.close()
 		r.log.Println("Realm", name, "was removed and completed shutdown")
 	}
+}
+
+// post hands an action to the router goroutine. It returns false, without
+// posting, once the router has been closed.
+func (r *router) post(action func()) bool {
+	r.stopLock.RLock()
+	defer r.stopLock.RUnlock()
+	if r.stopping {
+		return false
+	}
+	r.actionChan <- action
+	return true
 }
 
 // addRealm attempts to create and add a realm to this router.
